@@ -420,19 +420,19 @@ def _campaign(ctx: core.Ctx, tier: str, shard: int, nshards: int) -> None:
     for i, case in enumerate(families(tier, ctx.seed)):
         if i % nshards == shard:
             ctx.run(case, enumerated=True)
-    # exponential fan-out in lax mode (two recursive calls per level)
-    for i, edge in enumerate(["include", "render"]):
-        if (i + 3) % nshards == shard:
-            ctx.run({"kind": "family", "edge": edge, "kinds": ["if"], "d": 1, "mode": "lax", "fan": 2})
-            ctx.run({"kind": "family", "edge": edge, "kinds": ["if"], "d": 1, "mode": "strict", "fan": 2})
+    # fan-out: two or three recursive calls per level (exponential work if a suppressed depth error lets every level go on)
+    j = 0
+    for edge in ("include", "render"):
+        for fan in (2, 3):
+            for d in (0, 1, 12, 25):
+                for mode in ("lax", "strict"):
+                    j += 1
+                    if j % nshards == shard:
+                        ctx.run({"kind": "family", "edge": edge, "kinds": ["if"], "d": d, "mode": mode, "fan": fan}, enumerated=True)
     core.drive(sources(), ctx.run, n=(4000 if quick else 100000) // nshards, seed=core.sub_seed(ctx.seed, shard))
 
 
-def _lax_fanout(case) -> bool:
-    return case.get("kind") == "family" and case.get("fan", 1) >= 2 and case.get("mode") != "strict"
-
-
-KNOWN_PREDICATES = {"C09-lax-fanout-include": _lax_fanout, "C09-lax-fanout-render": _lax_fanout}
+KNOWN_PREDICATES: dict = {}
 
 
 def campaign(ctx: core.Ctx, tier: str, shard: int, nshards: int) -> None:
